@@ -36,9 +36,19 @@ def mc_fractions(G, n, seed):
 
 
 def half_volumes_are_cell_measures(self, approx, result):
-    mon = "C15.volumes"
     try:
         P = np.asarray(self.my_array, dtype=float)
+        full = np.asarray(self.full_voronoi.get_voronoi_volumes(approx=True), dtype=float)
+    except Exception as e:
+        REC.crashed("C15.oracle_error", e)
+        return True
+    return judge_volumes(P, result, full)
+
+
+def judge_volumes(P, result, full):
+    """P: double cover (2N,4); result: the N reported volumes; full: the 2N double-cover volumes (None if the grid has no such model)"""
+    mon = "C15.volumes"
+    try:
         N = len(P) // 2
         G = P[:N]
         V = np.asarray(result, dtype=float)
@@ -48,8 +58,9 @@ def half_volumes_are_cell_measures(self, approx, result):
         else:
             if np.any(V <= 0) or not np.all(np.isfinite(V)):
                 problems.append("non-positive or non-finite volume")
-            full = np.asarray(self.full_voronoi.get_voronoi_volumes(approx=True), dtype=float)
-            if full.shape != (2 * N,) or not np.array_equal(V, full[:N]):
+            if full is None:
+                problems.append("a rotation grid with N >= 4 has no double-cover cell model behind its volumes (equal-share estimate used)")
+            elif full.shape != (2 * N,) or not np.array_equal(V, full[:N]):
                 problems.append("not the first N of the 2N double-cover volumes")
             s = V.sum() / HALF - 1
             if abs(s) > 0.12:
@@ -118,7 +129,12 @@ def drive(alg, N):
     try:
         F = SphereGrid3DFactory if alg in ("ico", "cube3D", "randomS") else SphereGrid4DFactory
         g = F.create(alg_name=alg, N=N)
+        before = REC.monitors["C15.volumes"]["calls"]
         v = g.get_spherical_voronoi().get_voronoi_volumes()
+        if alg in ("cube4D", "randomQ") and N >= 4 and type(g.get_spherical_voronoi()).__name__ != "HalfRotobjVoronoi":
+            # the property covers every rotation grid with N >= 4 whatever class serves it: judge at the grid level
+            REC.notes["C15 judged at the grid level"] += 1
+            judge_volumes(np.asarray(g.get_grid_as_array(only_upper=False), dtype=float), v, None)
         if alg in ("cube4D", "randomQ") and N >= 4:
             REC.nontrivial_case((alg, N))
             v2 = g.get_spherical_voronoi().get_voronoi_volumes()   # second request on the same object (helper points are filtered in place)
